@@ -672,26 +672,19 @@ pub fn record_gencases(n_models: usize, seed: u64, out: &mut dyn Write) {
         let (mut mm, alpha) = gen_model(&mut rng, &GenOpts { with_tags, max_w: 12 });
         // some models with a window size of 0 (the trainer can produce them): the n-grams of that kind are dropped, the
         // dictionary and the tag n-grams stay.  Only relational checks (build vs build) use these cases.
-        match id % 12 {
-            10 => {
+        match id % 6 {
+            4 => {
                 mm.cw = 0;
                 mm.cng.clear();
-                for t in mm.tags.iter_mut() {
-                    for e in t.cng.iter_mut() {
-                        e.weights.retain(|w| w.rel == 0);
-                    }
-                    t.cng.retain(|e| !e.weights.is_empty());
+                if mm.dict.is_empty() {
+                    let w: String = alpha.iter().take(2).collect();
+                    let l = w.chars().count();
+                    mm.dict.push(MWord { word: w, weights: (0..l + 1).map(|k| 500 - 300 * k as i32).collect(), comment: String::new() });
                 }
             }
-            11 => {
+            5 => {
                 mm.tw = 0;
                 mm.tng.clear();
-                for t in mm.tags.iter_mut() {
-                    for e in t.tng.iter_mut() {
-                        e.weights.retain(|w| w.rel == 0);
-                    }
-                    t.tng.retain(|e| !e.weights.is_empty());
-                }
             }
             _ => {}
         }
